@@ -78,4 +78,27 @@ def _x448(case, mout):
     ok = len(diff) <= 2 and all((b[i] == (a[i] & 0xFC)) or (b[i] == (a[i] | 0x80)) for i in diff)
     return ok and "wl=ok" in imp
 
-KNOWN = {"trust-packet-body-dropped": _trust, "x448-secret-clamped": _x448}
+
+def _v6count(case, mout):
+    if case.get("op") != "canon" or case["args"][0] not in ("5", "7"):
+        return False
+    imp = str(case.get("impl", ""))
+    if not imp.startswith("DIFFERENT ") or "wl=ok" not in imp:
+        return False
+    a = bytes.fromhex(case["rp"][1]); b = bytes.fromhex(imp.split(" ")[1])
+    if len(a) != len(b):
+        return False
+    hl = 2 if a[1] < 192 else (3 if a[1] < 224 else 6)
+    if a[hl] != 6:
+        return False
+    diff = [i for i in range(len(a)) if a[i] != b[i]]
+    if len(diff) != 1:
+        return False
+    i = diff[0]
+    if a[i - 1] == 253:
+        return i + 2 < len(a) and a[i + 2] not in (1, 2, 3)
+    if a[i - 1] == 254:
+        return i + 1 < len(a) and a[i + 1] not in (1, 2, 3, 4, 7, 8, 9, 10, 11, 12, 13)
+    return False
+
+KNOWN = {"trust-packet-body-dropped": _trust, "x448-secret-clamped": _x448, "v6-secret-count-with-unknown-algorithm": _v6count}
